@@ -446,7 +446,9 @@ class WSGITask(Task):
                         "a WSGI application (see PEP 3333)" % k
                     )
 
-            self.response_headers.extend(headers)
+            # keep what was validated: copy the items, an application may
+            # pass (and later change) mutable [name, value] lists
+            self.response_headers.extend((k, v) for k, v in headers)
 
             # Return a method used to write the response data.
             return self.write
